@@ -40,8 +40,9 @@ CHECKS = {
             "Complete lattice of standard-combination configurations (d<=3, all lmin<=lmax, 6 grid families), BFS over scripted "
             "surplus rankings of the dimension-adaptive driver and BFS over refinement-decision histories of the dimension-wise and "
             "extend-split (version 0) strategies; in every state the reported value is compared with the coefficient-weighted sum "
-            "over fresh grid objects, with evaluate_final_combi(), with the same history run with reevaluate_at_end=True and with "
-            "sum w f(p) over get_points_and_weights().",
+            "over fresh grid objects, with evaluate_final_combi(), with the same history run with reevaluate_at_end=True / "
+            "recalculate_frequently=True, with solutions_storage and, at EVERY evaluation, with sum w f(p) over get_points_and_weights(); "
+            "other grid families (high-order, Lagrange, B-spline, Romberg, Simpson) under the dimension-wise and extend-split strategies.",
             "Bounds d<=3, D<=2..3, s<=2; relative tolerance 1e-11; integrand menu carried as one vector-valued function.",
             "explicit-state BFS over decision histories + exhaustive configuration lattice, differential oracle"),
     "C06": ("DESIGN.md 2/C06",
@@ -52,8 +53,9 @@ CHECKS = {
             "explicit-state BFS over benefit-assignment histories"),
     "C07": ("DESIGN.md 2/C07",
             "BFS over decision histories of the real extend-split strategy (areas refined, extend/split in automatic mode, split "
-            "dimensions in single-dimension mode) for versions 0-2; tiling, point assignment, local coefficient sums and local "
-            "reproduction of unit functions checked in every state.",
+            "dimensions in single-dimension mode) for versions 0-2, incl. runs that are interrupted and continued (both documented ways, "
+            "two stop points per history); tiling, point assignment, local coefficient sums and local reproduction of unit functions "
+            "checked in every state.",
             "Bounds d<=3, D<=2..3, s<=2, domain [0,1]^d.",
             "explicit-state BFS over decision histories replayed on the real objects"),
     "C08": ("DESIGN.md 2/C08",
@@ -65,8 +67,12 @@ CHECKS = {
     "C09": ("DESIGN.md 2/C09",
             "Every refinement tree with leaves at depth<=4 and every Catalan tree with <=6 (thorough 8) inner points, dyadic and 1/3 "
             "splits, two intervals, plus all 676 pairs of depth-<=3 trees in 2D; trapezoid weights compared with exact rational "
-            "integrals of the piecewise-linear nodal functions, hierarchical/high-order rules with exact monomial moments.",
-            "trees <= 17 points; 'enough points' read as a complete dyadic level; tree enumerator validated against the real refine().",
+            "integrals of the piecewise-linear nodal functions, hierarchical/high-order rules with exact monomial moments; the high-order "
+            "rule (with and without boundary points, modified basis, splitting) against a reference model of its moment matching; object "
+            "reuse (one grid object asked repeatedly).",
+            "trees <= 17 points; 'enough points' = complete dyadic level (hierarchical bases) / degree reached by the reference model "
+            "(high-order rule); tree enumerator validated against the real refine(). Known findings: splitting without boundary points, "
+            "modified B-splines on one-sided trees.",
             "exhaustive tree enumeration, exact reference weights"),
     "C10": ("DESIGN.md 2/C10",
             "Every tree of the C09 families x {Lagrange 1,2,3,5; B-spline 1,3,5} x boundary on/off (global grids, 1D and 2D pairs) and the "
@@ -83,7 +89,8 @@ CHECKS = {
     "C12": ("DESIGN.md 2/C12",
             "(a) every operation sequence of depth 4 (thorough 5) over an 11-operation alphabet (single/batch/empty/ndarray/vectorised "
             "evaluation with colliding points, cache reset, cache deactivation, counter read) on 12 real Function objects, lock-step "
-            "with a reference model (pure scalar eval + a set); (b) complete lattice of 27 built-in classes/parameterisations x d<=3 x all "
+            "with a reference model (pure scalar eval + a set); (b) complete lattice of 29 built-in classes/parameterisations (incl. the "
+            "base-class numeric integral) x d<=3 x all "
             "boxes with corners in {0,1/4,1/2,1}^d (+ boxes off the unit cube) against composite Gauss-Legendre quadrature of eval.",
             "Counter only compared while caching is on; UQNormal wrappers and FunctionGeneralizedNormal excluded (see assumptions).",
             "exhaustive operation-sequence enumeration with reference model + exhaustive input lattice"),
@@ -92,17 +99,21 @@ CHECKS = {
             "unlimited baseline, every boundary case) x strategy x integrand x norm, each a complete run of the real adaptive loop "
             "with the real estimator, compared step by step with a reference model of the loop; distinct-evaluation counter "
             "kept by the harness-side integrand.",
-            "d=2; six strategy variants; max_time (real clock) not explored.",
+            "d=2; nine strategy variants (incl. a non-nested grid family and periodic recalculation); max_time (real clock) not explored.",
             "exhaustive configuration lattice, reference-model lock-step of the driver loop"),
     "C14": ("DESIGN.md 2/C14",
-            "Crash-point enumeration: every evaluation index of every uninterrupted run is used as interruption point, in three "
-            "variants (continue / save+restore+continue / save, continue original, restore and continue copy); final structure, "
-            "scheme, result and point count compared with the uninterrupted run; restored instance compared with the saved one.",
-            "d=2; real estimators; dill persistence into a scratch directory.",
+            "Crash-point enumeration: every evaluation index (incl. the last) of every uninterrupted run (with and without a reference "
+            "solution) is used as interruption point, in four variants (continue / performSpatiallyAdaptiv(refinement_container) / "
+            "save+restore+continue / save, continue original, restore and continue copy); plus BFS over scripted refinement histories "
+            "of the dimension-wise, extend-split and cell strategies with EVERY split point k=0..len and three continuations; final "
+            "structure, scheme, result and point count compared with the uninterrupted run; restored instance compared with the saved one.",
+            "d=2; real and scripted estimators; dill persistence into a scratch directory. Known findings: extend-split version 2 and the "
+            "cell strategy without reference when continued through refinement_container.",
             "exhaustive interruption-point enumeration, differential oracle against the uninterrupted run"),
     "C15": ("DESIGN.md 2/C15",
             "(a) every refinement tree with leaves at depth<=3 (thorough 4) built with the probability-halving midpoint plus tail chains, "
-            "for 7 distribution configurations x boundary flag: weight sign/sum/uniform laws and the midpoint law on every interval; "
+            "for 7 distribution configurations and 4 mixed per-dimension configurations x boundary flag: weight sign/sum/uniform laws and "
+            "the midpoint law on every interval against independently built (scipy) reference distributions; "
             "(b) BFS over refinement-decision histories of the dimension-wise strategy on the weighted grid (plus default-estimator "
             "runs) with the affine images and a constant carried as components of one model: moment transformation laws in every state.",
             "Normal on a finite box: laws hold up to the mass deficit of the box; midpoint law for intervals of mass >= 2^-10.",
@@ -118,20 +129,22 @@ CHECKS = {
     "C17": ("DESIGN.md 2/C17",
             "Lock-step exploration: every refinement-decision history (BFS, scripted estimator, real loop) and every uniform combination is "
             "executed on 6 real instances (reuse on/off x size threshold 200/0/8 via the guarded hook) plus natural-size grids (>=200 "
-            "points) without the hook; surpluses, scheme and interpolated densities compared with the reuse-off instance.",
+            "points) without the hook, grids without and with boundary points; surpluses, scheme and interpolated densities compared with "
+            "the reuse-off instance.",
             "Known finding: the right-hand-side reuse branch is not transparent. Hook: GridOperation._verif_threshold.",
             "explicit-state BFS over decision histories, differential (lock-step) oracle"),
     "C18": ("DESIGN.md 2/C18",
-            "Every operation sequence of depth 4 (thorough 5) over a 21-operation alphabet (scalings with/without override, factors, "
+            "Every operation sequence of depth 3..4 (thorough 4..5) over a 31-operation alphabet (scalings with/without override, factors incl. negative and per-dimension, "
             "shifts, revert, explorer-chosen shuffle permutations, boundary move, the three splits followed by concatenation, in-range / "
-            "duplicate / out-of-range removals, concatenation with a differently scaled copy) on 5 initial DataSets incl. empty, single, "
-            "ties and one-dimensional; lock-step with a reference model of the labelled multiset and the scaling attributes.",
+            "duplicate / out-of-range removals, concatenation with a differently scaled copy, operations on derived objects = copies and "
+            "split pieces) on 6 initial DataSets incl. empty, single, ties, one-dimensional and integer dtype; lock-step with a reference model of the labelled multiset and the scaling attributes.",
             "Known finding: concatenate never refuses different scalings. Exceptions on empty sets count as refusals.",
             "exhaustive operation-sequence enumeration with reference model"),
     "C19": ("DESIGN.md 2/C19",
             "Complete lattice of learning configurations (3 labelled data sets incl. unlabelled samples and 1D x split percentage x even/uneven "
             "x standard/dimension-wise x explorer-chosen shuffle permutations) and on each learned object ALL call sequences of length 2 "
-            "(thorough 3) over {__call__, test_data} x {inside, partly outside, entirely outside, with unlabelled}; arg-max reference under "
+            "(thorough 3) over {__call__, test_data} x {inside, partly outside, entirely outside, with unlabelled, the classifier's own testing "
+            "data as returned / reverted}; arg-max reference (densities recomputed from the surpluses) under "
             "the learning-time scaling, removal rule, recomputed summary, earlier results unchanged.",
             "Ties within 1e-9 accept either class; the learned classifiers themselves are taken from the object (their correctness is C16/C17).",
             "exhaustive configuration lattice + operation-sequence enumeration with reference model"),
@@ -139,7 +152,7 @@ CHECKS = {
             "Complete lattice d x targets x lambda x matrix x level range (standard) / margin x max_evaluations (dimension-wise) x Opticom "
             "option with default constructor arguments; per component grid the normal equations with an independently recomputed design "
             "matrix, design matrices vs hat values, smoothing matrices vs the exact gradient Gram matrix on every level vector and on "
-            "every tree / pair of trees, Opticom coefficient sums.",
+            "every tree / pair of trees, Opticom coefficient sums; retraining of one object; natural-size training sets (33 000 samples).",
             "Known findings: build_C_matrix on anisotropic levels, build_C_matrix_dimension_wise in d>=2 / touching supports (values pinned by "
             "the repository tests).",
             "exhaustive configuration lattice, independent normal-equation oracle"),
